@@ -278,7 +278,12 @@ func c19(c *Ctx) {
 		if good {
 			inspectNoLit(merges[0].N, func(n ast.Node) bool {
 				if call, ok := n.(*ast.CallExpr); ok && callToDecl(info, merge)(call) {
-					good = sameVar(info, call.Args[0], res) && sameVar(info, call.Args[1], detected)
+					acc := ast.Expr(call.Args[0])
+					// the accumulated resource may be kept in a small local struct initialised with the parameter (d.res)
+					if fd, _ := dg.FieldDef(acc); fd != nil {
+						acc = fd
+					}
+					good = sameVar(info, acc, res) && sameVar(info, call.Args[1], detected)
 				}
 				return true
 			})
